@@ -2,6 +2,7 @@ import Driver.Util
 import Driver.Vec
 import Driver.Queue
 import Driver.PubSub
+import Driver.ResizeMem
 import Driver.Channel
 import Driver.Lifecycle
 import Driver.ServiceLife
@@ -48,6 +49,7 @@ def components : List (String × Comp) := [
   ("vec", VecD.comp),
   ("queue", QueueD.comp),
   ("pubsub", PubSubD.comp),
+  ("resize", ResizeMemD.comp),
   ("zcc", ChannelD.comp),
   ("lifecycle", LifecycleD.comp),
   ("svclife", ServiceLifeD.comp),
